@@ -88,6 +88,14 @@ MODULES = {
          "shape3d_size": {"records": ["shape"]},
          "coords_intersect": {"records": ["start_a", "end_a", "start_b", "end_b"]},
          "get_offset_block_coords": {"records": ["area", "block"]}}),
+    "hillclimb_allocation": ("ethosu/vela/hillclimb_allocation.py", "SrcHillclimbAllocation", [
+        "LiveRangeInfo.overlaps", "LiveRangeInfo.is_neighbour", "LiveRangeInfo.__lt__"],
+        {"LiveRangeInfo.overlaps": {"records": ["self"]},
+         "LiveRangeInfo.is_neighbour": {"records": ["self", "lr"]},
+         "LiveRangeInfo.__lt__": {"records": ["self", "other"]}}),
+    "live_range": ("ethosu/vela/live_range.py", "SrcLiveRange", [
+        "LiveRange.overlaps_ranges"],
+        {"LiveRange.overlaps_ranges": {"records": ["self", "other"]}}),
 }
 
 _cache = {}
